@@ -7,12 +7,9 @@ import (
 	"encoding/json"
 	"fmt"
 	"os"
-	"os/exec"
 	"path/filepath"
-	"runtime"
 	"sort"
 	"strings"
-	"sync"
 	"testing"
 
 	"github.com/tucats/ego/internal/verifh/vh"
@@ -159,14 +156,20 @@ func TestC05Corpus(t *testing.T) {
 	// The interpreter's settings are process-global, so files cannot be run
 	// concurrently in one process; the corpus is sharded over worker processes of
 	// this same test binary instead and the parent merges their reports.
-	shard, shards := 0, 1
+	shard, shards, sharded := shardOf(t, "FMT5_SHARD")
+	if !sharded && os.Getenv("FMT5_ONLY") == "" {
+		// more shards than workers: a pool pulls them, so one heavy shard (a blocking
+		// example, a slow test directory) does not leave the other workers idle
+		w := shardWorkers()
+		runShards(t, r, arena, root, "TestC05Corpus", "FMT5_SHARD", 4*w, w)
 
-	if sp := os.Getenv("FMT5_SHARD"); sp != "" {
-		if _, err := fmt.Sscanf(sp, "%d/%d", &shard, &shards); err != nil || shards < 1 || shard < 0 || shard >= shards {
-			t.Fatalf("bad FMT5_SHARD %q", sp)
+		if r.Counters["files.accepted"] == 0 {
+			t.Fatal("observed nothing")
 		}
-	} else if os.Getenv("FMT5_ONLY") == "" {
-		runCorpusShards(t, r, arena, root)
+
+		if err := r.Write(); err != nil {
+			t.Fatal(err)
+		}
 
 		return
 	}
@@ -546,113 +549,4 @@ func hasKind(fs []Finding, kind string) bool {
 	}
 
 	return false
-}
-
-// runCorpusShards starts the worker processes, waits for them and merges their
-// reports into r. A worker that leaves no report is a harness error.
-func runCorpusShards(t *testing.T, r *vh.Report, arena, root string) {
-	workers := runtime.NumCPU() / 2
-	if workers > 8 {
-		workers = 8
-	}
-
-	if workers < 1 {
-		workers = 1
-	}
-
-	type result struct {
-		out string
-		log []byte
-		err error
-	}
-
-	// more shards than workers: a pool pulls them, so one heavy shard (a blocking
-	// example, a slow test directory) does not leave the other workers idle
-	shards := 4 * workers
-	res := make([]result, shards)
-	sem := make(chan struct{}, workers)
-
-	var wg sync.WaitGroup
-
-	for i := 0; i < shards; i++ {
-		wg.Add(1)
-		sem <- struct{}{}
-
-		go func(i int) {
-			defer func() { <-sem; wg.Done() }()
-
-			wa := filepath.Join(arena, fmt.Sprintf("shard-%d", i))
-			_ = os.MkdirAll(wa, 0o755)
-			res[i].out = filepath.Join(arena, fmt.Sprintf("shard-%d.json", i))
-			_ = os.Remove(res[i].out)
-
-			cmd := exec.Command(selfExe, "-test.run", "^TestC05Corpus$", "-test.timeout", "0", "-test.count", "1")
-			wh := filepath.Join(wa, "home") // workers must not share a profile directory
-			_ = os.MkdirAll(wh, 0o755)
-			cmd.Env = append(os.Environ(), fmt.Sprintf("FMT5_SHARD=%d/%d", i, shards), "VERIF_OUT="+res[i].out, "VERIF_ARENA="+wa, "VERIF_HOME="+wh)
-			cmd.Dir = root
-			res[i].log, res[i].err = cmd.CombinedOutput()
-		}(i)
-	}
-
-	wg.Wait()
-
-	r.Count("shards.workers", int64(workers))
-	r.Count("shards.total", int64(shards))
-
-	for i := range res {
-		raw, err := os.ReadFile(res[i].out)
-		if err != nil {
-			t.Fatalf("harness error: corpus worker %d left no report (%v): %s", i, res[i].err, trunc(string(res[i].log), 1500))
-		}
-
-		var w vh.Report
-		if err := json.Unmarshal(raw, &w); err != nil {
-			t.Fatalf("harness error: corpus worker %d report unreadable: %v", i, err)
-		}
-
-		if res[i].err != nil {
-			t.Fatalf("harness error: corpus worker %d failed: %v: %s", i, res[i].err, trunc(string(res[i].log), 1500))
-		}
-
-		r.Evaluations += w.Evaluations
-		r.Distinct += w.Distinct // shards hold disjoint files
-
-		for k, v := range w.Counters {
-			switch {
-			case k == "violations_raw":
-				// the merged report keeps at most 3 witnesses per key and worker; the true
-				// number of refuted cases is kept here
-				r.Count("violations_raw_in_workers", v)
-			case !strings.HasPrefix(k, "violations_") && k != "inconclusive":
-				r.Count(k, v)
-			}
-		}
-
-		for _, v := range w.Violations {
-			r.Violate(v)
-		}
-
-		for _, x := range w.Inconclusive {
-			r.Inconcl(x)
-		}
-
-		for _, x := range w.Notes {
-			r.Note(x)
-		}
-
-		for _, x := range w.Samples {
-			if i < 3 {
-				r.Sample(x)
-			}
-		}
-	}
-
-	if r.Counters["files.accepted"] == 0 {
-		t.Fatal("observed nothing")
-	}
-
-	if err := r.Write(); err != nil {
-		t.Fatal(err)
-	}
 }
